@@ -73,12 +73,33 @@ class Ctx:
         t0 = time.time()
         self.queries += 1
         self.last_solver = self.solver
+        if self.env.get("fp"):
+            # floating-point terms on this path: the incremental core stalls on them (measured: unknown after 60 s
+            # where fpa2bv + bit-blasting answers in 0.2 s), so such paths go straight to that pipeline
+            r = self._fp_check(extra)
+            if r in ("sat", "unsat"):
+                self.solver_time += time.time() - t0
+                return r
         self.solver.set("timeout", FAST_MS)
         r = str(self.solver.check(*extra))
         if r == "unknown":
             r = self._slow_check(extra)
         self.solver_time += time.time() - t0
         return r
+
+    def _fp_check(self, extra):
+        try:
+            s2 = z3.TryFor(z3.Then("simplify", "fpa2bv", "simplify", "ackermannize_bv", "simplify", "bit-blast", "smt"),
+                           self.timeout_ms).solver()
+            s2.set("timeout", self.timeout_ms)
+            s2.add(*self.solver.assertions())
+            s2.add(*extra)
+            r = str(s2.check())
+            if r in ("sat", "unsat"):
+                self.last_solver = s2
+            return r
+        except z3.Z3Exception:
+            return "unknown"
 
     def _slow_check(self, extra):
         self.slow_queries += 1
